@@ -72,7 +72,7 @@ PROPS["C12"] = dict(
     rule=PAIR_RULE + "; every pair re-run under translation, Move, scaling by 2^k, x->-x, y->-y, transpose, start-vertex rotation (first, random, last), reversal, closing vertex toggled; the four answers must equal those of the untransformed pair",
     trusted_base=COMMON_TB,
     assumptions=["float64 exact on D (also after translation/scaling: the harness keeps |k| <= 2^23)"],
-    partial=["translation and positive scaling are proved for every pair predicate of the model (AffinePairs.v); reflection / re-encoding invariance of ring-level contains / intersects is explored (metamorphic), not proved - it fails exactly on the known findings"],
+    partial=["translation and positive scaling are proved for every pair predicate of the model (AffinePairs.v); the reflections x -> -x, y -> -y and the transposition x <-> y are proved for point membership in rings and polygons with holes and for the Intersects answers of ring x segment / line / ring (Crossing.v: ray-direction independence; Mirror.v, MirrorY.v, Symmetry.v); reflection / re-encoding invariance of ring-level contains, and of intersects with holes, is explored (metamorphic), not proved - it fails exactly on the known findings"],
 )
 
 PROPS["C04"] = dict(
